@@ -4,10 +4,7 @@
  *    that round's per-sample values".
  * Abstract state (round, value, snapshot); one observation = (train error, validation error, #validation samples,
  * #weak learners).  The whole state appears in the postcondition; the frame is exactly the three members. */
-struct nv_tensor2d { uint64_t id; };              /* ghost identity of the tensor's contents */
-struct nv_indices { int64_t n; uint64_t id; };    /* size + ghost identity of the index list */
-struct nv_vec { uint64_t size; };                 /* std::vector: only its size matters here */
-struct nv_early_stopping { uint64_t m_round; double m_value; struct nv_tensor2d m_values; };
+#include "types.h"
 
 /* assumed contract of gboost::mean_error: a deterministic function of (errors, samples); the two results the
  * monitor can observe are the ghost values below (arbitrary doubles, NaN included) */
